@@ -12,6 +12,7 @@ B  Histories - not just transitions - are replayed on ONE real instance:
 """
 import itertools
 import random
+import warnings
 
 import numpy as np
 
@@ -175,6 +176,7 @@ def stft_histories(run, tier, rng):
 
 def si_histories(run, tier, rng):
     nprng = np.random.RandomState(rng.randint(0, 2 ** 31 - 1))
+    warnings.filterwarnings("ignore", category=RuntimeWarning)  # (histories hold infinite samples: numpy says so at every later step)
     cfgs = gen_mc.si_configs(tier)
     if tier == "quick":
         # every third configuration, plus those with warm-up samples (skip > 0) and a shift of 3+,
@@ -194,6 +196,12 @@ def si_histories(run, tier, rng):
         c_ = dict(style="causal", S=S_, M=M_, T=0, D=gen_mc.nextpow2(L_), left=0, length=M_)
         if c_ not in cfgs:
             cfgs.append(c_)
+    # C04 quantifies over ALL configurations: frame shifts longer than half the widest filter too (outside the range where
+    # C01 / C03 pin the frame values down, so only used-versus-fresh is decided there and no trace is validated)
+    for (S_, M_) in ((8, 5), (10, 7), (5, 4)):
+        L_ = M_ + S_ - 1
+        for D_ in sorted({L_, gen_mc.nextpow2(L_)}):
+            cfgs.append(dict(style="centered", S=S_, M=M_, T=M_ // 2, D=D_, left=-(M_ // 2), length=M_, outside=True))
     traces, meta, tid = [], {}, 0
     for c in cfgs:
         taps = [list(nprng.randint(-3, 4, size=c["length"]).astype(float) + 0.5)]
@@ -203,7 +211,9 @@ def si_histories(run, tier, rng):
         alpha = [("chunk", 0), ("chunk", 1), ("chunk", S), ("chunk", D), ("chunk", 2 * D + 1), ("finalize",),
                  ("full", 0), ("full", S + 1), ("full", 2 * D), ("chunk32", 2),
                  ("chunkint", 2),    # integer samples: refused (documented), and a refusal changes nothing
-                 ("loud", 2 * D + 1), ("loud", 3), ("loud", max(2, D - 2))]  # utterances a million times louder than the next one
+                 ("loud", 2 * D + 1), ("loud", 3), ("loud", max(2, D - 2)),  # utterances a million times louder than the next one
+                 ("nonfinite", D + 1), ("nonfinite", 2),                      # ... or with samples that are not numbers at all
+                 ("chunk", max(1, c["T"])), ("chunk", max(1, S - S // 2 - 1))]
         hists = [list(h) for d in range(1, 3) for h in itertools.product(alpha, repeat=d)]
         for _ in range(40 if tier == "quick" else 300):
             hists.append([rng.choice(alpha) for _ in range(10)])
@@ -227,6 +237,15 @@ def si_histories(run, tier, rng):
                     if rec.events[-1]["st"] != inprog:
                         run.violation({"kind": "si_started_flag_wrong", "cfg": c, "history": [list(o) for o in h], "after": list(op),
                                        "started": rec.events[-1]["st"], "expected": inprog})
+                    continue
+                if op[0] == "nonfinite":
+                    xb = nprng.randn(op[1])
+                    xb[::3], xb[1::3], xb[2::3] = np.inf, np.nan, 1e200
+                    with np.errstate(all="ignore"), warnings.catch_warnings():
+                        warnings.simplefilter("ignore")
+                        rec.call("chunk", xb)
+                    if not rec.events[-1]["err"]:
+                        inprog = True
                     continue
                 if op[0] == "loud":
                     rec.call("chunk", nprng.randn(op[1]) * 1e6)
@@ -289,6 +308,8 @@ def si_histories(run, tier, rng):
             if a.shape != b.shape or a.tobytes() != b.tobytes():
                 run.violation({"kind": "si_probe_differs_from_fresh_instance", "cfg": c, "history": [list(o) for o in h],
                                "used_shape": list(a.shape), "fresh_shape": list(b.shape)})
+            if c.get("outside"):
+                continue
             tid += 1
             traces.append({"tid": tid, "cfg": {k: c[k] for k in ("style", "S", "M", "T", "D")}, "events": rec.events})
             meta[tid] = (c, h)
